@@ -43,8 +43,10 @@ class VariableElimination(Inference):
         dict: Modified working factors.
         """
 
+        # Factors hash and compare by value: tag the initial factors with their identity
+        # so that several equal factors of a model are kept apart.
         working_factors = {
-            node: {(factor, None) for factor in self.factors[node]}
+            node: {(factor, id(factor)) for factor in self.factors[node]}
             for node in self.factors
         }
 
@@ -57,7 +59,9 @@ class VariableElimination(Inference):
                     )
                     for var in factor_reduced.scope():
                         working_factors[var].remove((factor, origin))
-                        working_factors[var].add((factor_reduced, evidence_var))
+                        working_factors[var].add(
+                            (factor_reduced, (evidence_var, origin))
+                        )
                 del working_factors[evidence_var]
         return working_factors
 
@@ -174,8 +178,11 @@ class VariableElimination(Inference):
             all_factors = []
             for factor_li in self.factors.values():
                 all_factors.extend(factor_li)
+            # Each factor is listed once per variable in its scope: keep one entry per
+            # factor object (not per value, equal factors are different factors).
+            all_factors = list({id(factor): factor for factor in all_factors}.values())
             if joint:
-                return factor_product(*set(all_factors))
+                return factor_product(*all_factors)
             else:
                 return set(all_factors)
 
